@@ -196,7 +196,18 @@ def _convex_lin(m, mask, stored):
     n = len(mask)
     fv0, fj0 = _operand(7, m, n)
     sg = np.array([1.0, -1.0, -1.0][:n])  # derivatives of both signs
-    fv, fj = (lambda x: fv0(x * sg)), (lambda x: fj0(x * sg) * sg)
+    bb = np.array([2.0, -3.0][:max(m, 1)])  # cross term b_i x_0 x_1: the exact-input columns of Df depend on the approximated inputs
+
+    def fv(x):
+        v = np.atleast_1d(fv0(x * sg)) + bb * x[0] * x[1]
+        return float(v[0]) if m == 0 else v
+
+    def fj(x):
+        j = np.atleast_2d(fj0(x * sg) * sg).astype(float).copy()
+        j[:, 0] += bb * x[1]
+        j[:, 1] += bb * x[0]
+        return j[0] if m == 0 else j
+
     store = {}
 
     def jac(x):  # a function that keeps the Jacobian it returns (as MDOLinearFunction or a caching user function does)
